@@ -226,7 +226,8 @@ def repo_state() -> dict:
 
 def write_replay(pid: str, plan: dict, rec: dict, dig: str, tier: str) -> str:
     os.makedirs(os.path.join(VERIF, "replays"), exist_ok=True)
-    path = os.path.join(VERIF, "replays", f"{pid}-{plan.get('run_seed', 0)}.json")
+    tag = "%08x" % (core.H(*core.vclass(rec)) & 0xFFFFFFFF)
+    path = os.path.join(VERIF, "replays", f"{pid}-{plan.get('run_seed', 0)}-{tag}.json")
     doc = {"format": 1, "property": pid, "run_seed": plan.get("run_seed"), "tier": tier, "plan": plan,
            "violation": rec, "digest": dig, "repo": repo_state(),
            "hashseed": os.environ.get("PYTHONHASHSEED", "")}
